@@ -587,6 +587,17 @@ func (s *Stage) Recover() {
 			defer wg.Done()
 			for f := range ch {
 				finalFile := s.partialToFinal(f)
+				// A complete file that the log already knows with this hash is a
+				// retransmission that was cut short, not a new file
+				s.buildCache(s.cacheLookBack(f.Time.Time))
+				if existing := s.fromCache(finalFile.path); existing != nil &&
+					existing.state >= stateFinalized &&
+					existing.hash == finalFile.hash {
+					s.logInfo("Ignoring duplicate (recover):", finalFile.name)
+					os.Remove(finalFile.path + fullExt)
+					os.Remove(finalFile.path + compExt)
+					continue
+				}
 				s.toCache(finalFile, stateReceived)
 				s.process(finalFile)
 			}
